@@ -29,6 +29,30 @@ func (p *Prog) FuncsCalling(pred func(c *ssa.CallCommon) bool) []*ssa.Function {
 	return out
 }
 
+// LoopFuncsCalling returns the repo functions that contain a loop and perform, inside their own
+// body or inside a small same-package helper expanded in place (PathsInl), a call matching pred.
+// This is how stage loops are found when part of their body was extracted into a helper.
+func (p *Prog) LoopFuncsCalling(pred func(c *ssa.CallCommon) bool) []*ssa.Function {
+	var out []*ssa.Function
+	for _, fn := range p.SrcFuncs() {
+		if len(LoopHeaders(fn)) == 0 {
+			continue
+		}
+		hit := false
+		for _, s := range PathsInl(fn).Segs {
+			for _, e := range s.Events {
+				if e.Kind == EvCall && pred(e.Call) {
+					hit = true
+				}
+			}
+		}
+		if hit {
+			out = append(out, fn)
+		}
+	}
+	return out
+}
+
 // fieldLoad recognises `*(&x.f)` / `x.f` and returns x and the field name.
 func fieldLoad(v ssa.Value) (base ssa.Value, field string, ok bool) {
 	switch t := v.(type) {
